@@ -79,9 +79,9 @@ type Conn struct {
 	// wroteClose is set to 1 once a close frame has been handed to writeFrame.
 	// No other frame may follow it. Accessed atomically.
 	wroteClose int32
-	// readClose is set to 1 once a close frame from the peer has been read or the
-	// close handshake has taken over reading. No message can be read after that.
-	// Accessed atomically.
+	// readClose is set to 1 once a close frame from the peer has been read, the
+	// close handshake has taken over reading, or a read has failed. No message can
+	// be read after that. Accessed atomically.
 	readClose int32
 
 	pingCounter   int32
